@@ -26,6 +26,10 @@ type CaseC17 struct {
 	Others    [][2]int64 `json:",omitempty"`
 	MainFirst bool       `json:",omitempty"`
 	Reuse     int64      `json:",omitempty"` // backward: the pair object is a re-used object filled through its setters
+	// Twin: backward: a second pair object with the same quadkey, zoom and index but a height range of the same width
+	// moved by Twin/4 of that width is converted in the same call (before the main one if TwinFirst)
+	Twin      int64 `json:",omitempty"`
+	TwinFirst bool  `json:",omitempty"`
 }
 
 func genRange(t *rapid.T) (float64, float64) {
@@ -140,6 +144,10 @@ func genC17(t *rapid.T) *CaseC17 {
 		c.OutV--
 	}
 	c.Reuse = genReuse(t)
+	if rapid.IntRange(0, 2).Draw(t, "twin") == 1 {
+		c.Twin = rapid.SampledFrom([]int64{-8, -4, -2, -1, 1, 2, 4, 8}).Draw(t, "twinShift")
+		c.TwinFirst = rapid.Bool().Draw(t, "twinFirst")
+	}
 	return c
 }
 
@@ -451,6 +459,36 @@ func checkC17(c *CaseC17, fl *Fails) {
 	if err != nil {
 		fl.Add("backward-error", "%s: %v", desc, err)
 		return
+	}
+	if c.Twin != 0 {
+		// two pair objects in one call: the result is the union of the two single conversions
+		shift := (mx - mn) / 4 * float64(c.Twin)
+		tmn, tmx := mn+shift, mx+shift
+		tc := *c
+		tc.Min, tc.Max, tc.Twin = F64(tmn), F64(tmx), 0
+		if tmx-tmn == mx-mn && c17Run(&tc) <= 10000 {
+			tw := object.NewQuadkeyAndVerticalID(6, 2914, c.Z, c.K, tmx, tmn)
+			single, e1 := transform.ConvertQuadkeysAndVerticalIDsToExtendedSpatialIDs([]*object.QuadkeyAndVerticalID{tw}, 6, c.OutV)
+			list := []*object.QuadkeyAndVerticalID{q, tw}
+			if c.TwinFirst {
+				list = []*object.QuadkeyAndVerticalID{tw, q}
+			}
+			both, e2 := transform.ConvertQuadkeysAndVerticalIDsToExtendedSpatialIDs(list, 6, c.OutV)
+			if e1 == nil && e2 == nil {
+				want := map[string]struct{}{}
+				for _, s := range ids {
+					want[s] = struct{}{}
+				}
+				for _, s := range single {
+					want[s] = struct{}{}
+				}
+				if miss, extra := diffSets(both, want); len(miss)+len(extra) > 0 {
+					fl.Add("backward-list-union", "%s: converting the ID together with one of the height range [%v,%v) (same width, other offset) in one call: missing %v, unexpected %v compared with the two single conversions", desc, tmn, tmx, trunc(miss, 6), trunc(extra, 6))
+				}
+			} else if (e1 == nil) != (e2 == nil) {
+				fl.Add("backward-list-error", "%s: twin range [%v,%v): single conversion error %v, list conversion error %v", desc, tmn, tmx, e1, e2)
+			}
+		}
 	}
 	var got []int64
 	for _, id := range ids {
